@@ -85,15 +85,21 @@ Proof. exact replace_both_flags. Qed.
 Print Assumptions C15_both_flags_is_none.
 
 (* The READER's notion of identifier: `x' = -x/tau` is the differential equation of x, so an identifier also ends at the
-   derivative mark ' (is_delim_spec).  The code's set allowed_follow_ops lacks ' (finding C15-primed-lhs, repair
-   fixes/fix_C15_prime_delim.diff, switch Replace.fixed_prime).  For either value of the switch: on equations without the
-   mark — or with the repaired set — the loop returns the sided word-wise substitution for the reader's identifiers. *)
+   derivative mark ' (is_delim_spec).  Since fix D100 the code's set allowed_follow_ops contains ' (switch
+   Replace.fixed_prime = true); before it, replace("x' = -x/tau", "x", "z") kept the primed left-hand side.  The statement
+   holds for either value of the switch: on equations without the mark — or with the repaired set, i.e. now on EVERY
+   equation — the loop returns the sided word-wise substitution for the reader's identifiers. *)
 Theorem C15_replace_reader : forall term rep, term <> [] -> nodelim is_delim_spec term = true ->
   forall rhs lhs eq, (fixed_prime = true \/ prime_free eq = true) ->
   replace_flags is_delim term rep rhs lhs eq = Some (replace_words_sided is_delim_spec term rep rhs lhs eq).
 Proof. exact (replace_flags_reader fixed_prime). Qed.
 Print Assumptions C15_replace_reader.
-(* before the repair the guard is needed: replace("x' = -x/tau", "x", "z") keeps the primed left-hand side *)
+(* headline on the current tree: no guard left *)
+Theorem C15_replace_reader_now : forall term rep, term <> [] -> nodelim is_delim_spec term = true ->
+  forall rhs lhs eq, replace_flags is_delim term rep rhs lhs eq = Some (replace_words_sided is_delim_spec term rep rhs lhs eq).
+Proof. intros term rep Hne Hnd rhs lhs eq. apply (replace_flags_reader fixed_prime term rep Hne Hnd). left. reflexivity. Qed.
+Print Assumptions C15_replace_reader_now.
+(* before fix D100 the guard was needed (regression case corpus/C15/primed_lhs.json; reverting D100 is reported) *)
 Theorem C15_primed_lhs_before_fix : exists eq, prime_free eq = false /\
   replace (is_delim_gen false) (L "x"%string) (L "z"%string) eq <> Some (replace_words is_delim_spec (L "x"%string) (L "z"%string) eq).
 Proof. exact replace_prime_before_fix. Qed.
@@ -121,12 +127,17 @@ Proof. exact update_op_equations_edit. Qed.
 Print Assumptions C15_inheritance_equations.
 
 (* identical arguments give identical derived templates: k derivations from one base with the SAME edit dictionary object.
-   update_template pops `add` out of the caller's dictionary (finding C15-D99-edit-dict, repair fixes/fix_D99.diff, switch
-   Replace.fixed_D99); for either value of the switch, under the guard "repaired, or the dictionary has no `add`, or is used once" *)
+   Before fix D99 update_template popped `add` out of the caller's dictionary (switch Replace.fixed_D99, now true; regression
+   case corpus/C15/D99_edit_dict_reused.json).  For either value of the switch, under the guard "repaired — i.e. now always —
+   or the dictionary has no `add`, or is used once" *)
 Theorem C15_edit_dict_reuse : forall V isd k beqs bvars u vupd, (fixed_D99 = true \/ reuse_guard k u = true) ->
   derive_reusing V isd k beqs bvars u vupd = derive_spec V isd k beqs bvars u vupd.
 Proof. intros V isd. exact (derive_reusing_ok V isd fixed_D99). Qed.
 Print Assumptions C15_edit_dict_reuse.
+Theorem C15_edit_dict_reuse_now : forall V isd k beqs bvars u vupd,
+  derive_reusing V isd k beqs bvars u vupd = derive_spec V isd k beqs bvars u vupd.
+Proof. intros. apply (derive_reusing_ok V isd fixed_D99). left. reflexivity. Qed.
+Print Assumptions C15_edit_dict_reuse_now.
 Theorem C15_edit_dict_before_fix : exists beqs u,
   derive_reusing_gen str is_delim false 2 beqs [] u [] <> derive_spec str is_delim 2 beqs [] u [].
 Proof. exact derive_before_fix. Qed.
